@@ -920,6 +920,67 @@ pub fn sort_may_panic(root: &Relations) -> Option<bool> {
     Some(false)
 }
 
+/// `rel.eqcmp <a> <b>`: `==` and `cmp` of two strictly read fields at relation / entry / field level
+/// (Model/RelEq.lean). Oracle (Props/C13Eq): `cmp == Equal` implies `==`; `==` implies `cmp == Equal`
+/// unless one of the two relations repeats an architecture (`a [x x] == a [x]`, `HashSet` against
+/// sorted `Vec`: recorded incoherence of `PartialEq` and `Ord`, DESIGN 9.5 — the sort never calls `==`)
+fn run_eqcmp(ta: &str, tb: &str) -> Resp {
+    let (a, b) = match (Relations::from_str(ta), Relations::from_str(tb)) {
+        (Ok(a), Ok(b)) => (a, b),
+        _ => return Resp::ok("err".into()),
+    };
+    let sb = |o: Option<bool>| match o {
+        Some(true) => "1",
+        Some(false) => "0",
+        None => "P",
+    };
+    let so = |o: Option<std::cmp::Ordering>| match o {
+        Some(std::cmp::Ordering::Less) => "lt",
+        Some(std::cmp::Ordering::Equal) => "eq",
+        Some(std::cmp::Ordering::Greater) => "gt",
+        None => "P",
+    };
+    let f = guard(|| a == b);
+    let ea: Vec<Entry> = a.entries().collect();
+    let eb: Vec<Entry> = b.entries().collect();
+    let mut why = None;
+    let (r, e) = if ea.len() == 1 && eb.len() == 1 {
+        let (x, y) = (&ea[0], &eb[0]);
+        let e = format!("e={} ecmp={}", sb(guard(|| x == y)), so(guard(|| x.cmp(y))));
+        let ra: Vec<Relation> = x.relations().collect();
+        let rb: Vec<Relation> = y.relations().collect();
+        if ra.len() == 1 && rb.len() == 1 {
+            let eq = guard(|| ra[0] == rb[0]);
+            let cmp = guard(|| ra[0].cmp(&rb[0]));
+            let dup = |r: &Relation| {
+                guard(|| r.architectures().map(|it| it.collect::<Vec<_>>())).flatten().map_or(false, |v| {
+                    let mut s = v.clone();
+                    s.sort();
+                    s.dedup();
+                    s.len() != v.len()
+                })
+            };
+            if let (Some(eq), Some(cmp)) = (eq, cmp) {
+                if cmp == std::cmp::Ordering::Equal && !eq {
+                    why = Some("cmp == Equal but the two relations are not ==".to_string());
+                } else if eq && cmp != std::cmp::Ordering::Equal && !dup(&ra[0]) && !dup(&rb[0]) {
+                    why = Some("the two relations are == but cmp != Equal (and neither repeats an architecture)".to_string());
+                }
+                let back = guard(|| rb[0].cmp(&ra[0]));
+                if back != Some(cmp.reverse()) {
+                    why = Some("cmp is not antisymmetric".to_string());
+                }
+            }
+            (format!("eq={} cmp={}", sb(eq), so(cmp)), e)
+        } else {
+            ("eq=- cmp=-".to_string(), e)
+        }
+    } else {
+        ("eq=- cmp=-".to_string(), "e=- ecmp=-".to_string())
+    };
+    Resp::with(format!("{} {} f={}", r, e, sb(f)), why)
+}
+
 fn run_wrap(text: &str, allow: bool) -> Resp {
     let (root, errs) = Relations::parse_relaxed(text, allow);
     if !errs.is_empty() {
@@ -1108,21 +1169,62 @@ fn run_wrap(text: &str, allow: bool) -> Resp {
     } else {
         why.push("accessors panic on the normalised tree".into());
     }
-    // canonical: the same dependencies written in another order normalise to the same text
+    // canonical: the same dependencies written in another order normalise to the same text — the
+    // fully reversed field and three seeded shuffles (entries, and the alternatives of every entry,
+    // Fisher-Yates; the seed is a hash of the text, so the answer stays a function of the request).
+    // `C13_order_independent` covers every permutation; reversal alone leaves a sort that is only
+    // correct on (anti-)sorted input unnoticed (audit of C13, W5c)
     {
-        let mut rev: Vec<Den> = din
-            .iter()
-            .map(|x| match x {
-                Den::Alts(a) => Den::Alts(a.iter().rev().cloned().collect()),
-                s => s.clone(),
-            })
-            .collect();
-        rev.reverse();
-        if let Some(r) = strict_parse(&show_den(&rev), allow) {
-            match guard(move || r.wrap_and_sort().to_string()) {
-                None => why.push("wrap_and_sort panics on the reversed field".into()),
-                Some(t) if t != t1 => why.push(format!("order-dependent: {:?} for the input, {:?} for the same entries and alternatives in reverse order", t1, t)),
-                _ => {}
+        let reorder = |k: u64| -> Vec<Den> {
+            if k == 0 {
+                let mut rev: Vec<Den> = din
+                    .iter()
+                    .map(|x| match x {
+                        Den::Alts(a) => Den::Alts(a.iter().rev().cloned().collect()),
+                        s => s.clone(),
+                    })
+                    .collect();
+                rev.reverse();
+                return rev;
+            }
+            let mut h: u64 = 0xcbf29ce484222325 ^ k.wrapping_mul(0x9e3779b97f4a7c15);
+            for b in text.bytes() {
+                h = (h ^ b as u64).wrapping_mul(0x100000001b3);
+            }
+            let mut rng = Rng::new(h);
+            let mut v: Vec<Den> = din
+                .iter()
+                .map(|x| match x {
+                    Den::Alts(a) => {
+                        let mut a = a.clone();
+                        for i in (1..a.len()).rev() {
+                            a.swap(i, rng.below(i + 1));
+                        }
+                        Den::Alts(a)
+                    }
+                    s => s.clone(),
+                })
+                .collect();
+            for i in (1..v.len()).rev() {
+                v.swap(i, rng.below(i + 1));
+            }
+            v
+        };
+        for k in 0..4u64 {
+            let other = reorder(k);
+            if k > 0 && din.len() < 2 && !din.iter().any(|x| matches!(x, Den::Alts(a) if a.len() > 1)) {
+                break; // nothing to permute
+            }
+            let how = if k == 0 { "in reverse order".to_string() } else { format!("shuffled (seed {})", k) };
+            if let Some(r) = strict_parse(&show_den(&other), allow) {
+                match guard(move || r.wrap_and_sort().to_string()) {
+                    None => why.push(format!("wrap_and_sort panics on the field {}", how)),
+                    Some(t) if t != t1 => {
+                        why.push(format!("order-dependent: {:?} for the input, {:?} for the same entries and alternatives {}", t1, t, how));
+                        break;
+                    }
+                    _ => {}
+                }
             }
         }
     }
@@ -1143,7 +1245,27 @@ fn run_wrap(text: &str, allow: bool) -> Resp {
         let cs: Vec<char> = text.chars().collect();
         cs.windows(2).any(|w| w[0] == '!' && w[1].is_whitespace())
     };
-    let fail = if why.is_empty() || detached_not { None } else { Some(format!("{:?} -> {}", text, why.join("; "))) };
+    // likewise outside the grammar (audit of C13, W5b): a name glued to a following `!` inside `<…>`
+    // (`a <x!y>`: `profiles()` answers the single name `x!y`, rebuilt as one IDENT token) and a version
+    // whose text before the first `:` is not a number (`a (= x:1)`: no epoch, upstream `x:1`, rebuilt
+    // as one IDENT token) — the live tree is not the tree of its own text; model = code only
+    let glued = crate::rel::bang_inside_term(text) || {
+        let mut bad = false;
+        let mut rest = text;
+        while let Some(i) = rest.find('(') {
+            let tail = &rest[i + 1..];
+            let end = tail.find(')').unwrap_or(tail.len());
+            let v: String = tail[..end].chars().filter(|c| !matches!(c, '<' | '>' | '=') && !c.is_whitespace()).collect();
+            if let Some((e, _)) = v.split_once(':') {
+                if e.is_empty() || !e.chars().all(|c| c.is_ascii_digit()) {
+                    bad = true;
+                }
+            }
+            rest = &tail[end..];
+        }
+        bad
+    };
+    let fail = if why.is_empty() || detached_not || glued { None } else { Some(format!("{:?} -> {}", text, why.join("; "))) };
     Resp::with(obs, fail)
 }
 
@@ -1151,6 +1273,7 @@ pub fn handle(op: &str, a: &[&str]) -> Option<Resp> {
     match (op, a) {
         ("rel.hist", [t, allow, ops]) => Some(run_hist(&ds(t)?, *allow == "1", ops)),
         ("rel.wrap", [t, allow]) => Some(run_wrap(&ds(t)?, *allow == "1")),
+        ("rel.eqcmp", [a, b]) => Some(run_eqcmp(&ds(a)?, &ds(b)?)),
         _ => None,
     }
 }
@@ -1365,6 +1488,32 @@ pub fn generate_c13(tier: &str, seed: u64, out: &mut Out) {
             }
         }
     }
+    // `==` against `cmp` (Model/RelEq, Props/C13Eq): every ordered pair of the relation pool, the
+    // twins, relations that repeat an architecture (`==` collects a HashSet, `cmp` sorts a Vec), one
+    // whose `version()` panics, and a few entries / fields (slice `==`: lengths first)
+    {
+        let mut pool: Vec<&str> = rels.to_vec();
+        pool.extend([
+            "foo [a b]", "foo [b a]", "a (>= 0:1)", "a (= 1.0-0)", "a (= 1.0)", "p <x y>", "p <x  y>", "q:any (<< 2)", "q:any (<<2)",
+            "a [x x]", "a [x]", "a [x y x]", "a [y x]", "a [x y]", "a [!x !x]", "a [!x]", "a (= 1.0) [x y]", "a (= 1.00) [y x x]",
+            "a [amd64 amd64]", "a []", "a :any", "a <x>", "a < x >", "a <x> <y>", "a <!x y>", "a (>> 1)", "a (= 01)", "a (= 1)", "B",
+            "a (> 1)", "b (> 1)",
+        ]);
+        for x in pool.iter() {
+            for y in pool.iter() {
+                out.req("rel.eqcmp", &[es(x), es(y)]);
+            }
+        }
+        let fields = [
+            "a | b", "b | a", "a", "a | b | c", "a, b", "a,b", "a, , b", "b, a", "a,", "", ",", "a [x x] | b", "a [x] | b", "a (> 1) | b",
+            "a (> 1)", "a (> 1), b", "b, a (> 1)", "b | a (> 1)", "a [x x], b", "a [x], b",
+        ];
+        for x in fields.iter() {
+            for y in fields.iter() {
+                out.req("rel.eqcmp", &[es(x), es(y)]);
+            }
+        }
+    }
     // prefix entries, duplicates, empties, substvars, layouts
     for t in [
         "", " ", ",", "a", "a,", ",a", "a, , b", "b, a", "b | a", "a | b, a", "a, a | b", "a | b | c, a | b", "a | b, a | b | c", "a | b, a, a | b | c",
@@ -1433,6 +1582,22 @@ pub fn generate_c13(tier: &str, seed: u64, out: &mut Out) {
     // layouts outside the C10 grammar that the strict parser accepts (blank after '!', inside the operator, ...)
     for t in ["a [! b]", "a [! b !\n c], d [!e]", "a <! x y>", "libc6-dev [! hurd-i386 !\n kfreebsd-amd64], foo [!amd64]", "a ( >= 1 ), b", "a : any, b"] {
         out.req("rel.wrap", &[es(t), "0".into()]);
+    }
+    // the rest of the audit's table of strictly accepted layouts (C10 audit, section 4; C13 audit,
+    // section 4): gaps around the qualifier colon, dangling / stacked '!', glued profile terms, a
+    // non-numeric "epoch", empty lists, repeated architectures, operators outside the five (PANIC)
+    for t in [
+        "a :any", "a: any", "a\n:\nany", "b, a :any | a", "a [!]", "a [x !]", "a [!!x]", "a [! !x]", "c, a [x !] | a [x]", "a [x!y]", "a [x x], a [x]",
+        "a []", "a <>", "a <x!y>", "a <!x!y>", "b <y>, a <x!y> | a <x>", "a (= x:1)", "a (= x:1), a (= 1)", "a (= 01:1)", "a (= 4294967295:1)",
+        "a (1)", "a (> 1)", "a (< 1)", "a (== 1)", "a (<> 1)", "a (=> 1)", "a (>>= 1)", "a (= 4294967296:1)",
+        // the by-products of the sort key (Props/C13Key)
+        "a (>= 1), a (>> 1), a (= 1), a (<= 1), a (<< 1), a", "a (>= 1) | a (>> 1)", "a, B, 1, -, +", "a [y x]", "a [!y !x]", "a <z y> <!w v>",
+        "a (>= 2) | b, a (>= 1) | z", "z | b (>= 1) | b, a:any, B [y x], a",
+    ] {
+        out.req("rel.wrap", &[es(t), "0".into()]);
+    }
+    for t in ["${}", "${:}", "${a::b}, a", "${a:}, ${:a}, b"] {
+        out.req("rel.wrap", &[es(t), "1".into()]);
     }
     // the C10 field generator: every layout, wild constructs included
     let n = if thorough { 300_000 } else { 30_000 };
